@@ -211,7 +211,11 @@ class Evaluator:
             if not isinstance(it, (list, tuple)):
                 raise Unsupported("iteration over a non-list value at line %d" % st.lineno)
             broke = False
-            for item in list(it):
+            i = 0
+            # python iterates a list by index over the *live* object: removing while iterating skips elements
+            while i < len(it):
+                item = it[i]
+                i += 1
                 self.assign(st.target, item, env)
                 try:
                     self.block(st.body, env)
